@@ -6,7 +6,7 @@
 //verif:cover VerifC07Repos prefix-named-repos
 //verif:cover VerifC07Labels three-labels
 //verif:assume listings under faults: a fixed world (repos r, r2, ab; in r two bundles, two labels, two diamonds running+done, two splits running+done), every kind of listing with a solver-chosen page size 1..5 and one transient fault at a solver-chosen store call of the listing (listing pages and descriptor reads)
-//verif:cover VerifC07ListFaults listing-page-failed descriptor-read-failed reported-failure
+//verif:cover VerifC07ListFaults listing-page-failed descriptor-read-failed reported-failure descriptor-transfer-cut
 //verif:cover VerifC07Diamonds done-diamond split-file-lists-present done-split page-size-1 start-times-against-id-order
 package core
 
@@ -314,8 +314,22 @@ func VerifC07ListFaults() {
 	page := vInt("pageSize", 1, 5)
 	kind := vChoose("listing", 5)
 	cr := &vCrasher{stores: []*vStore{meta}, allCalls: true, transient: true}
-	cr.crashAt = vInt("faultAt", 1, 14)
-	cr.install()
+	cutTransfer := vChoose("faultKind", 2) == 1
+	if cutTransfer {
+		// instead of a failing call: the transfer of one descriptor of the listed kind is cut after its first byte
+		vCover("descriptor-transfer-cut")
+		victim := []string{
+			model.GetArchivePathToBundle("r", vB2),
+			model.GetArchivePathToRepoDescriptor("r2"),
+			model.GetArchivePathToLabel("r", "l2"),
+			model.GetArchivePathToFinalDiamond("r", vD2),
+			model.GetArchivePathToFinalSplit("r", vD1, "s2"),
+		}[kind]
+		meta.cutAfter = map[string]int{victim: 1}
+	} else {
+		cr.crashAt = vInt("faultAt", 1, 14)
+		cr.install()
+	}
 	n, want := 0, 0
 	var err error
 	switch kind {
@@ -338,6 +352,11 @@ func VerifC07ListFaults() {
 	default:
 		err = ListSplitsApply("r", vD1, stores, func(model.SplitDescriptor) error { n++; return nil }, BatchSize(page))
 		want = 2
+	}
+	if cutTransfer {
+		meta.cutAfter = nil
+		vAssert(err != nil, "listing-over-a-cut-descriptor-transfer-reports-failure")
+		return
 	}
 	cr.revive()
 	vAssume(cr.crashed)
